@@ -105,6 +105,19 @@ func (p *Parser) Parse(source string) (Node, error) {
 		return nil, fmt.Errorf("parsing error: %w", err)
 	}
 
+	// parseOuterTemplate also returns at an end tag (endif, else, endfor ...),
+	// which closes a construct when called for its body; at the top level
+	// nothing is open, and everything after the tag would be dropped silently
+	if p.tokenIndex < len(p.tokens) && p.tokens[p.tokenIndex].Type != TOKEN_EOF {
+		tag := ""
+		for i := p.tokenIndex; i < len(p.tokens) && i <= p.tokenIndex+1; i++ {
+			if p.tokens[i].Type == TOKEN_NAME {
+				tag = p.tokens[i].Value
+			}
+		}
+		return nil, fmt.Errorf("parsing error: unexpected '%s' tag without an open block at line %d", tag, p.tokens[p.tokenIndex].Line)
+	}
+
 	return NewRootNode(nodes, 1), nil
 }
 
